@@ -587,10 +587,16 @@ def shard(ctx):
     final_res = Reservoir(4 if quick else 60, rng)
     stage_res = Reservoir(3 if quick else 40, rng)
     res_res = Reservoir(3 if quick else 40, rng)
-    big_res = Reservoir(1 if quick else 10, rng)
-    mon = Monitor(ctx, stage_res, res_res)
+    big_res = Reservoir(1 if quick else 4, rng)
+    try:
+        mon = Monitor(ctx, stage_res, res_res)
+    except Exception as ex:
+        site = raising_site(ex)
+        ctx.violation(f'module_construction_raises:{type(ex).__name__}:{site}', f'constructing the Tautology module raised {type(ex).__name__} in {site}',
+                      {'reproducer': 'Tautology()', 'error': repr(ex)[:300], 'site': site})
+        return
     build_secs = 30 if quick else 120
-    replay_secs = 60 if quick else 300
+    replay_secs = 60 if quick else 180
 
     # ---- (a) bounded-exhaustive formulas
     nvars, maxc = (2, 3) if quick else (3, 4)
